@@ -14,7 +14,7 @@ use std::time::Duration;
 
 pub static PROP: Prop = Prop {
     id: "C08",
-    rule: "cases: histories of 2-14 steps, each in a fresh child process over 1-2 persistent threads: register_function / register_prefix_op / register_postfix_op / register_infix_op(name, precedence, associativity) with handlers that return List[id, operands...] (a quarter of the function handlers also (re-)register a function when they run - possibly the one whose call they are an argument of; one infix registration in ten - two in three when it overrides an assignment operator - is of kind SETTER: the handler's value is bound to the left operand's name); names are fresh words (identifiers and spellings that are none: is-not, ~=, @@, не, enthält, divisible-by, содержит, größer_als), re-registrations of earlier names and built-in names (min, sum, +, - prefix, ++, in, &&) - also as the very first engine call of the process; symbolic operators only as one-character extensions of existing operators or of the conditional's marks (`:=`, `??`, `?:`); precedences from {1, 2, 19, 20, 21, 39..41, 59..61, 109..111, 119..121, 199..201, 10^9-1, 10^9} and uniform 1..=10^9 (an operator on an existing level takes that level's associativity); parse(text) and exec(text, context) steps with flat programs generated over the CURRENT operator table that use the registered names often; contexts that shadow a global function with a context function, bind the same name as a variable, or leave it unbound (and fixed programs in which an assignment turns a context function into a variable before it is called again). Oracle: a model registry updated per step (insert semantics); parse => reference parser parameterised by the model table; exec => reference evaluator whose handlers return List[id, args...], call dispatch = context function, else global, else error. Plus pairs of operators at 999 999 999 / 10^9, 6*10^8 / 9*10^8 and around 2^29, held-initialisation scenarios in which built-ins are overridden while another thread's first use is parked mid-initialisation, free-running races in which a function / prefix / infix / postfix operator is re-registered thousands of times while 2-4 threads evaluate a program that uses it once (every evaluation must dispatch to one of the two handlers), a fixed table of SETTER overrides of `=`, `+=`, `|=` and a new word, and the exhaustive adjacent-precedence table: a new operator at p in {q-1, q, q+1} x {LEFT, RIGHT where allowed} on either side of each of the 11 built-in levels q. Non-trivial: a re-registration, built-in override or context shadow that is subsequently used, or an operator whose precedence differs by exactly 1 from another operator used in the same text; distinct by (step-kind sequence, relative precedence pattern).",
+    rule: "cases: histories of 2-14 steps, each in a fresh child process over 1-2 persistent threads: register_function / register_prefix_op / register_postfix_op / register_infix_op(name, precedence, associativity) with handlers that return List[id, operands...] (a quarter of the function handlers also (re-)register a function when they run - possibly the one whose call they are an argument of; one infix registration in ten - two in three when it overrides an assignment operator - is of kind SETTER: the handler's value is bound to the left operand's name); names are fresh words (identifiers and spellings that are none: is-not, ~=, @@, не, enthält, divisible-by, содержит, größer_als), re-registrations of earlier names and built-in names (min, sum, +, - prefix, ++, in, &&) - also as the very first engine call of the process; symbolic operators only as one-character extensions of existing operators or of the conditional's marks (`:=`, `??`, `?:`); precedences from {1, 2, 19, 20, 21, 39..41, 59..61, 109..111, 119..121, 199..201, 10^9-1, 10^9} and uniform 1..=10^9 (an operator on an existing level takes that level's associativity); parse(text) and exec(text, context) steps with flat programs generated over the CURRENT operator table that use the registered names often; contexts that shadow a global function with a context function, bind the same name as a variable, or leave it unbound (and fixed programs in which an assignment turns a context function into a variable before it is called again). One step in twenty is a burst: 2-6 registrations of different names (new functions and operators of every kind, and the built-ins min, !, AND, not, -, +, in, ++) run concurrently, each on a thread of its own behind one barrier, and every one of them is used afterwards - each register_* call has returned, so each must be in force. Oracle: a model registry updated per step (insert semantics); parse => reference parser parameterised by the model table; exec => reference evaluator whose handlers return List[id, args...], call dispatch = context function, else global, else error. Plus pairs of operators at 999 999 999 / 10^9, 6*10^8 / 9*10^8 and around 2^29, held-initialisation scenarios in which built-ins are overridden while another thread's first use is parked mid-initialisation, free-running races in which a function / prefix / infix / postfix operator is re-registered thousands of times while 2-4 threads evaluate a program that uses it once (every evaluation must dispatch to one of the two handlers), a fixed table of SETTER overrides of `=`, `+=`, `|=` and a new word, and the exhaustive adjacent-precedence table: a new operator at p in {q-1, q, q+1} x {LEFT, RIGHT where allowed} on either side of each of the 11 built-in levels q. Non-trivial: a re-registration, built-in override or context shadow that is subsequently used, or an operator whose precedence differs by exactly 1 from another operator used in the same text; distinct by (step-kind sequence, relative precedence pattern).",
     assumptions: &[
         "an operator registered at an existing precedence level is given that level's associativity (mixed associativity on one level is undocumented)",
         "one spelling is not registered both as postfix and as prefix/infix operator (undocumented)",
@@ -82,6 +82,28 @@ pub fn worker() -> i32 {
                     "reg_op" => {
                         crate::props::register_op(&st["spec"], st["id"].as_i64().unwrap_or(0));
                         "ok".to_string()
+                    }
+                    "reg_burst" => {
+                        // every registration of the burst on a thread of its own, released together
+                        let regs = st["regs"].as_array().cloned().unwrap_or_default();
+                        let barrier = Arc::new(std::sync::Barrier::new(regs.len()));
+                        let hs: Vec<_> = regs
+                            .into_iter()
+                            .map(|r| {
+                                let b = barrier.clone();
+                                std::thread::spawn(move || {
+                                    let id = r["id"].as_i64().unwrap_or(0);
+                                    b.wait();
+                                    if r["op"] == "reg_fn" {
+                                        register_function(r["name"].as_str().unwrap_or(""), Arc::new(move |args| Ok(echo(id, args))));
+                                    } else {
+                                        crate::props::register_op(&r["spec"], id);
+                                    }
+                                })
+                            })
+                            .collect();
+                        let ok = hs.into_iter().all(|h| h.join().is_ok());
+                        if ok { "ok".to_string() } else { "PANIC in a registering thread".to_string() }
                     }
                     "parse" => match parse_expression(st["text"].as_str().unwrap_or("")) {
                         Ok(a) => sexp_ast(&a),
@@ -207,6 +229,12 @@ impl Reg {
                     }
                 }
             }
+            "reg_burst" => {
+                // distinct names: the order in which the registrations land does not matter
+                for r in st["regs"].as_array().cloned().unwrap_or_default() {
+                    self.apply(&r);
+                }
+            }
             _ => {}
         }
     }
@@ -298,7 +326,7 @@ fn run_history(threads: usize, steps: &[J], env: &Env, st: &mut Stats) -> CaseRe
             return Err(Failure::new(format!("{}:{}", if got == "TIMEOUT" { "hang" } else { "panic" }, op), format!("step {} {} gave {}", i, stp, got), scenario));
         }
         match op {
-            "reg_fn" | "reg_op" => reg.apply(stp),
+            "reg_fn" | "reg_op" | "reg_burst" => reg.apply(stp),
             "parse" => {
                 st.eval();
                 let text = stp["text"].as_str().unwrap_or("");
@@ -412,7 +440,7 @@ fn case(src: &mut Src, st: &mut Stats, env: &Env) -> CaseResult {
     let threads = 1 + src.weighted(&[1, 1]);
     let nsteps = 2 + src.pick(13);
     // the kind of every step first
-    let kinds: Vec<usize> = (0..nsteps).map(|i| if i == 0 { src.weighted(&[3, 1, 1]) } else { src.weighted(&[4, 4, 6, 3, 2]) }).collect();
+    let kinds: Vec<usize> = (0..nsteps).map(|i| if i == 0 { src.weighted(&[3, 1, 1]) } else { src.weighted(&[4, 4, 6, 3, 2, 1]) }).collect();
     let thr: Vec<usize> = (0..nsteps).map(|_| src.pick(threads)).collect();
     let mut reg = Reg::new();
     let mut steps: Vec<J> = vec![];
@@ -448,6 +476,50 @@ fn case(src: &mut Src, st: &mut Stats, env: &Env) -> CaseResult {
                 steps.push(s2);
                 interesting = true;
                 s1
+            }
+            5 => {
+                // 2-6 registrations of different names (new ones and built-ins) that run concurrently,
+                // each on a thread of its own; afterwards every one of them is used
+                shape.push('B');
+                interesting = true;
+                let pool: [(&str, &str); 16] = [
+                    ("fn", "bf1"), ("fn", "bf2"), ("fn", "min"), ("prefix", "bp1"), ("prefix", "bp2"), ("prefix", "!"), ("prefix", "AND"), ("prefix", "-"),
+                    ("infix", "bi1"), ("infix", "bi2"), ("infix", "+"), ("infix", "in"), ("postfix", "bq1"), ("postfix", "bq2"), ("postfix", "++"), ("prefix", "not"),
+                ];
+                let n = 2 + src.pick(5);
+                let mut regs: Vec<J> = vec![];
+                let mut uses: Vec<String> = vec![];
+                let start = src.pick(pool.len());
+                let stride = *src.choose(&[1usize, 3, 5, 7]);
+                for j in 0..n {
+                    let (kind, name) = pool[(start + j * stride) % pool.len()];
+                    let id = 1000 + 10 * i as u32 + j as u32;
+                    if kind == "fn" {
+                        regs.push(json!({"op": "reg_fn", "name": name, "id": id}));
+                        uses.push(format!("{} ( 1 )", name));
+                    } else {
+                        let (prec, right) = match name {
+                            "+" => (110, false),
+                            "in" => (200, false),
+                            _ => (115, false),
+                        };
+                        regs.push(json!({"op": "reg_op", "spec": {"kind": kind, "name": name, "prec": prec, "right": right, "setter": false}, "id": id}));
+                        uses.push(match kind {
+                            "prefix" => format!("{} 1", name),
+                            "postfix" => format!("1 {}", name),
+                            _ => format!("1 {} 2", name),
+                        });
+                    }
+                }
+                let burst = json!({"op": "reg_burst", "regs": regs, "thread": thr[i]});
+                reg.apply(&burst);
+                steps.push(burst);
+                let last = uses.pop().unwrap_or_else(|| "1".into());
+                for u in uses {
+                    let e = json!({"op": "exec", "text": u, "ctx": {}, "thread": thr[i]});
+                    steps.push(e);
+                }
+                json!({"op": "exec", "text": last, "ctx": {}, "thread": (thr[i] + 1) % threads})
             }
             3 => {
                 // parse on one thread, move an operator of that text to another precedence on
